@@ -51,3 +51,10 @@ def untraced():
     except Exception:
         pass
     return _Null()
+
+
+def pick_from(v, options):
+    for c in options[:-1]:
+        if v == c:
+            return c
+    return options[-1]
